@@ -1,6 +1,6 @@
 (* C12 — Routes track peers: exactly the announced claims, nothing for the disconnected.
    Table half; the node half (every peer-removal path calls remove_claims) is in Node/NodeProofs. *)
-From VpnModel Require Import Base RangeMatch Table TableProofs Nonce Replay Core Conn PeerCrypto NodeInfo Node NodeProofs RoutesProofs NextHopProofs.
+From VpnModel Require Import Base RangeMatch Table TableProofs Nonce Replay Core Conn PeerCrypto NodeInfo Node NodeProofs RoutesProofs NextHopProofs ClaimsExactProofs.
 
 (* T1: after set_claims the ranges attributed to the peer are exactly the announced ones, all with a
    fresh expiry; live entries of other peers untouched; if any claim of the peer was dropped all its
@@ -64,6 +64,23 @@ Theorem C12_crypto_housekeep_shape : forall salts now n,
 Proof. exact crypto_housekeep_shape. Qed.
 
 
+(* T1 at node level: whenever a node processes the node information of a connected peer - in a NODE_INFO message, or as the payload
+   that completes a handshake - the claims attributed to that peer become exactly the announced ones with a fresh expiry, and other
+   peers' live claims are untouched.
+   claims_exactly t' t now addr announced :=
+     (forall r, (exists c, In c (claims t') /\ c_peer c = addr /\ crange c = r) <-> In r announced) /\
+     (forall c, In c (claims t') -> c_peer c = addr -> c_timeout c = now + claim_timeout t) /\
+     (forall c, c_peer c <> addr -> (In c (claims t') <-> In c (claims t) /\ now <= c_timeout c)) *)
+Theorem C12_node_info_message_sets_claims_exactly : forall salts now n src pd body info reply, (0 < now)%Z -> (0 <= claim_timeout (n_table n))%Z ->
+  aget (n_peers n) src = Some pd -> ni_decode body = Ok info ->
+  claims_exactly (n_table (fst (handle_result salts now n src (MMessage MESSAGE_TYPE_NODE_INFO body) reply))) (n_table n) now src (ni_claims info).
+Proof. exact node_info_message_sets_claims_exactly. Qed.
+
+Theorem C12_handshake_payload_sets_claims_exactly : forall salts now n src pc info, (0 < now)%Z -> (0 <= claim_timeout (n_table n))%Z ->
+  aget (n_pending n) src = Some pc ->
+  claims_exactly (n_table (fst (add_new_peer salts now n src info))) (n_table n) now src (ni_claims info).
+Proof. exact handshake_payload_sets_claims_exactly. Qed.
+
 (* T4 (last sentence of the property, as an invariant): in EVERY state a node can reach - any events (datagrams from any source,
    interface reads, housekeeping, dials) at any times > 0, any handshake salts - every claim and every cached / learned address of the
    table belongs to a current peer, and handshake objects still in the pending map hold no key material (which is why they cannot
@@ -114,3 +131,5 @@ Print Assumptions C12_reachable_routes_point_at_peers.
 Print Assumptions C12_step_keeps_routes_at_peers.
 Print Assumptions C12_next_hop_is_peer.
 Print Assumptions C12_iface_never_selects_non_peer.
+Print Assumptions C12_node_info_message_sets_claims_exactly.
+Print Assumptions C12_handshake_payload_sets_claims_exactly.
